@@ -24,6 +24,13 @@ CLAIMS = {
             'Slot tables of EvolutionProxy, the sin/cos table of PrepareEvolve and the FastEvolutionProxy table fed with it are extracted '
             'for d=2..6 and compared with exp(iHt) A exp(-iHt) over the extracted basis; pair indices form a bijection with level pairs.',
             'static analysis: abstract interpretation into trigonometric-polynomial tables; comparison with the conjugation formula'),
+    'C06': ('proof',
+            'All 35 plane-rotation kernels (917 slot tables) are compared with R^dagger A R as trigonometric polynomials modulo sin^2+cos^2=1; '
+            'the rotation sequences of RotateToB0/B1 are compared with the factor order of GetTransformationMatrix, each factor with the plane rotation '
+            'of the property (and its unitarity); Rotate(U)/UTransform(U)/UDaggerTransform(U) are interpreted end to end for symbolic U; the two '
+            'WeightedRotation bodies are compared as normal forms; the Const accessors are enumerated over an index window. Proof level applies to the '
+            'kernel tables and factor rules; the WeightedRotation and accessor rules are structural necessary conditions.',
+            'static analysis: abstract interpretation into trigonometric-polynomial tables; product-word matrix domain with BLAS callee summaries; AST normal-form comparison'),
     'C11': ('proof',
             'The four filter families are abstractly interpreted for d=2..6 with data-dependent branches kept as guards; the guarded table of every level pair is compared with the documented piecewise definition (threshold, strictness, ramp, cutoff), the phase/frequency of pair k with that of the consumer kernel, the interval form with the exact average; every division by an input-dependent quantity must be dominated by guards excluding zero (35 listed known findings).',
             'static analysis: abstract interpretation with guarded (ITE) values; guarded-table comparison; guard-dominance rule for divisions'),
